@@ -5,11 +5,9 @@ go 1.25.0
 require (
 	github.com/anishathalye/porcupine v1.3.0
 	github.com/miekg/dns v0.0.0
+	golang.org/x/net v0.55.0
 )
 
-require (
-	golang.org/x/net v0.55.0 // indirect
-	golang.org/x/sys v0.45.0 // indirect
-)
+require golang.org/x/sys v0.45.0 // indirect
 
 replace github.com/miekg/dns => /repo
